@@ -39,6 +39,7 @@ GenNext ==
   \/ \E k \in Carriers, pl \in AllGenPlans : G_Open(k, pl)
   \/ \E k \in Carriers, pkt \in Packet : S_UpFrame(k, pkt)
   \/ \E k \in Carriers, c \in CutClasses : S_Cut(k, c)
+  \/ \E id \in Ids, cls \in GapClasses : S_Gap(id, cls)
 IPSeqA == <<"192.0.2.7", "2001:db8::5", "0.0.0.0", "192.0.2.7", "<absent>">>
 IPSeqB == <<"::ffff:203.0.113.9", "not-an-ip", "198.51.100.200", "2001:DB8:0:0::a">>
 IPSeqC == <<"203.0.113.77", "::", "192.0.2.7:443", "[2001:db8::5]", "fe80::1%eth0", "192.0.2.256", " 192.0.2.7", "", "2001:db8::5">>
